@@ -2,6 +2,7 @@ import Bpmn.Driver.Main
 import Bpmn.Driver.C01
 import Bpmn.Driver.C04
 import Bpmn.Driver.C05Trk
+import Bpmn.Driver.C06
 open Bpmn.Driver
 
 def main : IO UInt32 :=
@@ -14,4 +15,5 @@ def main : IO UInt32 :=
     | "c05d" => C04.checkEng params lines
     | "c05trk" => C05Trk.check params lines
     | "c05gone" => C04.checkEng params lines
+    | "c05ebg" => C06.check params lines
     | _ => { bad := [s!"unknown family {family}"] })
